@@ -16,3 +16,14 @@ run N09 C19 C08 C02
 run N10 C09 C01 C03 C04
 run N11 C05 C17 C19
 run N12 C15 C16 C05 C17
+# behavioural changes that use freedom the property texts leave (second probe, P01-P10)
+run P01 C10 C02
+run P02 C10 C01
+run P03 C12 C13
+run P04 C12 C02 C20 C14
+run P05 C14 C09
+run P06 C14
+run P07 C14 C09
+run P08 C14 C20
+run P09 C19
+run P10 C19 C02
